@@ -54,6 +54,7 @@ GROUPS = {
     "modules": dict(Kinds={"function"}, Ops={"bind", "use", "libdef", "libuse", "fromlib", "fromlibas", "modattr", "asattr",
                          "sibdef", "sibuse", "fromsibas"},
                     ScopeNames=set(), Libs={"module", "package", "relative", "external", "shadowed"},
+                    lib_named_like_identifier=True,
                     quick=({"a"}, 2, 4), thorough=({"a"}, 3, 4)),
     # constructs with known gaps in rope
     "params": dict(Kinds={"function", "class"}, Ops={"use", "bind", "posonly", "kwonly", "vararg", "kwarg", "param"},
@@ -80,6 +81,7 @@ def constants(group, tier, rename=False, fresh_only=True):
         "Names": set(names), "Fresh": {"zz"}, "Kinds": set(g["Kinds"]), "Ops": set(g["Ops"]),
         "ScopeNames": set(g["ScopeNames"]) & set(names), "MaxScopes": max_scopes, "MaxEv": max_ev,
         "Libs": set(g.get("Libs", {"none"})), "ModFresh": {"zm"},
+        "LibNames": {"lb"} | (set(names) if g.get("lib_named_like_identifier") else set()),
         "DoRename": rename, "FreshOnly": fresh_only,
     }
 
@@ -157,6 +159,7 @@ class Program:
         self.names = sorted({e["n"] for e in self.events})
         self.lib = rec.get("lib", "none")
         self.libname = rec.get("libname", "lb")
+        self.sibname = self.libname      # the sibling keeps its name when lib is renamed (set by the caller)
         self.children = {s: [] for s in range(1, self.n + 1)}
         for i in range(2, self.n + 1):
             self.children[self.scopes[i]["parent"]].append(i)
@@ -407,7 +410,7 @@ class _Renderer:
         for e in self.evs(s, "fromsibas"):
             # explicit relative import: the sibling module beside the importer
             self.emit(indent, ["from .", ("mark", lambda l, c: self.r.sib_mod_tokens.append(("pk/mod.py", l, c))),
-                               "lb import ", self.ident(e), " as _r%d" % s])
+                               p.sibname, " import ", self.ident(e), " as _r%d" % s])
         if self.evs(s, "modattr"):
             if p.lib == "relative":
                 self.emit(indent, ["from . import ", self.modtok(), lib])
@@ -431,7 +434,7 @@ class _Renderer:
             r.extra_files["pk/__init__.py"] = ""
         if p.lib == "shadowed":
             # the importer's own folder holds another module called lb
-            r.sib_path = "pk/lb.py"
+            r.sib_path = "pk/%s.py" % p.sibname
             for e in self.evs(0, "sibdef"):
                 ln = len(r.sib_lines) + 1
                 r.sib_tok[ev_key(e)] = (ln, 0)
@@ -869,7 +872,7 @@ def cpython_check(prog, r, run=True):
                 if sib_names.get(pos) != key[2]:
                     raise SpecMismatch("token of %s not at %s in the sibling module" % (key, pos))
             for (path, line, col) in r.sib_mod_tokens:
-                if names_at.get((line, col)) != "lb":
+                if names_at.get((line, col)) != prog.sibname:
                     raise SpecMismatch("sibling module token not at %s" % ((path, line, col),))
     if run:
         out, exc = run_rendered(r)
